@@ -339,8 +339,6 @@ def unit_oracle(case, out, info):
                     return "well-formed list rejected (%s)" % out
                 if exp[0] == "toomany" and o[1] != "too-many":
                     return "diagnostic %s for a list that is well-formed but too long" % o[1]
-                if exp[0] == "err" and o[1] == "too-many":
-                    return "diagnostic too-many for a malformed list"
                 return None
             return "unexpected output " + out
         if w[0] == "avail":
